@@ -142,7 +142,43 @@ def canon_fields(o):
     return o
 
 
+def gen_nsmap(rng, tier):
+    from xsdata.models.enums import Namespace
+
+    base = [[ns.prefix, ns.uri] for ns in Namespace.common()]
+    names = ["xmlns", "dc", "ex", "id", "title", "a"]
+    for _ in range(n_cases(tier, 600, 20000)):
+        attrs = []
+        for _ in range(rng.randint(0, 6)):
+            r = rng.random()
+            if r < 0.45:
+                attrs.append({"prefix": "xmlns", "name": rng.choice(["dc", "ex", "p", "dc"]), "default_value": rng.choice(["urn:dc", "urn:ex", "", None, "urn:p"])})
+            elif r < 0.6:
+                attrs.append({"prefix": None, "name": "xmlns", "default_value": rng.choice(["urn:d", "", None])})
+            else:
+                attrs.append({"prefix": rng.choice([None, "dc", "ex"]), "name": rng.choice(names[2:]), "default_value": rng.choice([None, "v", ""])})
+        yield {"base": base, "prefix": rng.choice([None, "dc", "p"]), "attrs": attrs}
+
+
+def impl_nsmap(a):
+    from xsdata.codegen.parsers.dtd import DtdParser
+    from xsdata.models.dtd import DtdAttribute, DtdAttributeDefault, DtdAttributeType
+
+    attrs = [
+        DtdAttribute(name=x["name"], prefix=x["prefix"], type=DtdAttributeType.CDATA, default=DtdAttributeDefault.NONE,
+                     default_value=x["default_value"], values=[])
+        for x in a["attrs"]
+    ]
+    try:
+        m = DtdParser.build_ns_map(a["prefix"], attrs)
+    except Exception as e:  # noqa: BLE001
+        return err("LEAK:" + type(e).__name__)
+    return ok({"ns_map": [[k, v] for k, v in m.items()], "attrs": [[x.prefix, x.name] for x in attrs]})
+
+
 CORRS = [
+    Corr("gen.dtd_nsmap", gen_nsmap, impl_nsmap, nontrivial=lambda a, o: len(a["attrs"]) > 1,
+         describe="DtdParser.build_ns_map on constructed attribute lists vs model"),
     Corr("gen.dtd_sites", gen_sites, impl_sites, canon=canon_sites, describe="DtdParser + DtdMapper.build_content vs model"),
     Corr("gen.dtd_occurs", gen_sites, impl_occurs, canon=canon_occ, describe="DtdMapper attrs through the three occurrence handlers vs model"),
     Corr("gen.dtd_fields", gen_fields, impl_fields, canon=canon_fields,
@@ -171,9 +207,19 @@ def oracle_docs(a):
     from xsdata.formats.dataclass.serializers import XmlSerializer
 
     c, words, attrs = a["content"], a["words"], a.get("attrs", [])
+    ns = a.get("ns")  # {"decls": [prefix...], "first": bool, "split": bool}
     dtd_text = G.dtd_doc(c)
-    if attrs:
-        dtd_text += "<!ATTLIST r " + "  ".join(ATTR_VARIANTS[i][0] for i in attrs) + ">\n"
+    plain = "  ".join(ATTR_VARIANTS[i][0] for i in attrs)
+    if ns:
+        decls = "  ".join(f'xmlns:{p} CDATA #FIXED "urn:{p}"' for p in ns["decls"])
+        use = f'{ns["decls"][-1]}:title CDATA #IMPLIED'
+        parts = [decls, plain + "  " + use] if ns["first"] else [plain + "  " + use, decls]
+        if ns["split"]:
+            dtd_text += "".join(f"<!ATTLIST r {x}>\n" for x in parts if x.strip())
+        else:
+            dtd_text += "<!ATTLIST r " + "  ".join(x for x in parts if x.strip()) + ">\n"
+    elif attrs:
+        dtd_text += "<!ATTLIST r " + plain + ">\n"
     try:
         dtd = etree.DTD(io.StringIO(dtd_text))
     except etree.DTDParseError:
@@ -198,6 +244,9 @@ def oracle_docs(a):
                     elif kind in ("imp", "default", "enum", "tokens") and ((len(name) + len(w)) % 2):
                         given[name] = {"imp": "i1", "default": "other", "enum": "y", "tokens": "t1 t2"}[kind]
                 at = "".join(f' {k}="{v}"' for k, v in given.items())
+                if ns:
+                    lastp = ns["decls"][-1]
+                    at += "".join(f' xmlns:{p}="urn:{p}"' for p in ns["decls"]) + f' {lastp}:title="T{len(w)}"'
                 doc = f"<r{at}>" + "".join(f"<{n}>v{i}</{n}>" for i, n in enumerate(w)) + "</r>"
                 root = etree.fromstring(doc.encode())
                 if not dtd.validate(root):
@@ -206,7 +255,9 @@ def oracle_docs(a):
                     obj = parser.from_string(doc, R)
                 except Exception as e:  # noqa: BLE001
                     return f"DTD-valid document {doc} rejected ({opts}): {type(e).__name__}: {e}"
-                out = XmlSerializer(context=ctx).render(obj)
+                # DTDs are prefix-sensitive: serialise with the prefixes the DTD declares
+                user_map = {p: f"urn:{p}" for p in ns["decls"]} if ns else None
+                out = XmlSerializer(context=ctx).render(obj, ns_map=user_map)
                 back = etree.fromstring(out.encode())
                 got = [(ch.tag, ch.text) for ch in back]
                 exp = [(n, f"v{i}") for i, n in enumerate(w)]
@@ -222,6 +273,8 @@ def oracle_docs(a):
                         exp_attrs[name] = "D"
                     elif kind == "enum" and name not in given:
                         exp_attrs[name] = "x"
+                if ns:
+                    exp_attrs["{urn:%s}title" % ns["decls"][-1]] = f"T{len(w)}"
                 if dict(back.attrib) != exp_attrs:
                     return f"document {doc}: attributes after the round trip {dict(back.attrib)}, the DTD prescribes {exp_attrs}"
                 if ordered:
@@ -240,7 +293,10 @@ def gen_docs(rng, tier):
             continue
         p = G.dtd_particle(c)
         attrs = sorted(rng.sample(range(len(ATTR_VARIANTS)), rng.randint(0, 4)))
-        yield {"content": c, "words": [G.sample_word(rng, p) for _ in range(6)], "attrs": attrs}
+        ns = None
+        if rng.random() < 0.5:
+            ns = {"decls": rng.sample(["dc", "ex", "p3"], rng.randint(1, 3)), "first": rng.random() < 0.5, "split": rng.random() < 0.5}
+        yield {"content": c, "words": [G.sample_word(rng, p) for _ in range(4)], "attrs": attrs, "ns": ns}
 
 
 def true_max(p, n):
